@@ -26,6 +26,12 @@ import Thanos.Model.ReadPath
      answer   = S|S|…       S = <key>=<samples> (dedup) | <key>.<rid>=<samples> (no dedup); samples = t:v,… | e
                 - = no series;  panic
      (`wrl` only selects whether stores or the proxy remove the replica label — the same specification)
+
+  rp.tsdb <dedup> <wrl> <replicaLabels> <qmint> <qmaxt> <stores>   (C04)   the read path over TSDB-backed stores
+     replicaLabels = name,name,… | -
+     stores   = ST|ST|…     ST = <ext>#<ser>#<ser>…      ext = labels | -
+                ser   = <labels>@<samples>               labels = k=v,k=v,…     samples = t:v,… | e
+     answer   = S|S|…       S = <labels>@<samples>, ordered by the rendered label set;  - = no series;  panic
 -/
 open Thanos Thanos.Parse
 
@@ -144,6 +150,28 @@ def parseRSeries (s : String) : Option RSeries :=
     pure { key := key, reps := reps }
   | _ => none
 
+def parseLbl (s : String) : Option Lbl :=
+  match splitChar '=' s with
+  | [k, v] => some (k, v)
+  | _ => none
+
+def parseLbls (s : String) : Option (List Lbl) :=
+  if s = "-" then some [] else (splitChar ',' s).mapM parseLbl
+
+def parseTStore (s : String) : Option TStore :=
+  match splitChar '#' s with
+  | ext :: sers => do
+    let ext ← parseLbls ext
+    let sers ← sers.mapM fun x =>
+      match splitChar '@' x with
+      | [ls, sm] => do
+        let ls ← parseLbls ls
+        let sm ← parseReplica sm
+        pure (ls, sm)
+      | _ => none
+    pure { ext := ext, series := sers }
+  | [] => none
+
 def twoDigits (n : Nat) : String := if n < 10 then s!"0{n}" else toString n
 
 def parseBool? (s : String) : Option Bool :=
@@ -183,6 +211,15 @@ def handle : List String → String
                     else if rf then s!"{twoDigits kv.1.2}.{kv.1.1}" else s!"{twoDigits kv.1.1}.{kv.1.2}"
         s!"{name}={showSamples (kv.2.getD [])}")
     | _, _, _, _, _, _ => "bad-op"
+  | ["rp.tsdb", d, w, rl, qmint, qmaxt, stores] =>
+    match parseBool? d, parseBool? w, parseInt? qmint, parseInt? qmaxt, (splitChar '|' stores).mapM parseTStore with
+    | some d, some _, some qmint, some qmaxt, some sts =>
+      let rl := if rl = "-" then [] else splitChar ',' rl
+      let res := selectTSDB seekFixed d rl qmint qmaxt sts
+      if res.any (fun kv => kv.2.isNone) then "panic" else
+      if res.isEmpty then "-" else
+      joinWith "|" (res.map fun kv => s!"{kv.1}@{showSamples (kv.2.getD [])}")
+    | _, _, _, _, _ => "bad-op"
   | _ => "bad-op"
 
 end Thanos.Driver.Dedup
